@@ -125,3 +125,76 @@ def detonation_scan_params(r):
         a = [r.choice(vals + [Fraction(0), Fraction(0)]) for _ in range(K + 1)]
     fs = [Fraction(r.randint(0, 8), 8) for _ in range(40)]
     return style, (vmin, vmax, nMin, nMax, only, a, fs)
+
+
+# ---------------------------------------------------------------- findPlasmaProfilePoint branch logic (Model.ProfilePoint)
+
+def scripted_profile_point(Tn, Tplus, Tminus, tmin, c0, c1, c2):
+    """Runs the REAL EOM.findPlasmaProfilePoint on an object whose temperatureProfileEqLHS is the scripted parabola c0 + c1 T + c2 T^2,
+    with minimize_scalar returning the scripted `tmin` and root_scalar capturing its bracket (stubs installed from outside).
+    Returns the line Driver/ProfilePointF prints."""
+    from types import SimpleNamespace
+    import WallGo.equationOfMotion as EM
+    import common as C
+    eom = EM.EOM.__new__(EM.EOM)
+    eom.hydrodynamics = SimpleNamespace(Tnucl=Tn)
+    eom.errTol = 1e-3
+    eom.deltaToTmunu = lambda index, fields, vmid, deltas: (0.0, 0.0)
+    eom.temperatureProfileEqLHS = lambda fields, dPhidz, T, s1, s2: c0 + c1 * T + c2 * (T * T)
+    eom.plasmaVelocity = lambda fields, T, s1: -0.5
+    seen = {}
+    opt = EM.scipy.optimize
+    saved = (opt.minimize_scalar, opt.root_scalar)
+
+    def minimize_scalar(f, method=None, bounds=None, **kw):
+        seen["bounds"] = tuple(bounds)
+        return SimpleNamespace(x=tmin)
+
+    def root_scalar(f, bracket=None, **kw):
+        seen["bracket"] = tuple(bracket)
+        seen["kw"] = kw
+        return SimpleNamespace(root=0.5 * (bracket[0] + bracket[1]))
+    opt.minimize_scalar, opt.root_scalar = minimize_scalar, root_scalar
+    try:
+        T, v = EM.EOM.findPlasmaProfilePoint(eom, 0, -1.0, 1.0, -0.5, None, None, None, Tplus, Tminus)
+    finally:
+        opt.minimize_scalar, opt.root_scalar = saved
+    if "bracket" in seen:
+        a, b = seen["bracket"]
+        return f"root {C.f2b(float(a))} {C.f2b(float(b))}"
+    if T == 0 and v == 0:
+        return "nosolution"
+    return f"minimum {C.f2b(float(T))}"
+
+
+def profile_point_params(r):
+    """(kind, (Tn, Tplus, Tminus, tmin, c0, c1, c2)): parabolas k (T-T1)(T-T2) with the scripted minimum between, outside or without roots."""
+    Tn = 10 ** r.uniform(-2, 2)
+    branch = r.choice(("detonation", "detonation-rounding", "deflagration", "deflagration"))
+    if branch == "detonation":
+        Tplus = Tn
+    elif branch == "detonation-rounding":
+        Tplus = Tn + r.choice((-1, 1)) * r.choice((3e-11, 9.9e-11, 1.01e-10, 5e-10))       # either side of the 1e-10 test (absolute!)
+    else:
+        Tplus = Tn * r.uniform(1.0001, 1.4)
+    tmin = Tn * r.uniform(0.7, 1.6)
+    Tminus = tmin * r.choice((r.uniform(0.3, 0.99), r.uniform(1.01, 1.5), r.uniform(0.79, 0.81)))
+    shape = r.choice(("two-roots", "two-roots-far", "no-root", "touching", "never-positive", "roots-one-side"))
+    k = 10 ** r.uniform(-2, 2)
+    if shape == "two-roots":
+        T1, T2 = tmin * r.uniform(0.5, 0.95), tmin * r.uniform(1.05, 2.5)
+    elif shape == "two-roots-far":
+        T1, T2 = tmin * 10 ** r.uniform(-6, -1), tmin * 10 ** r.uniform(1, 6)
+    elif shape == "roots-one-side":
+        T1, T2 = tmin * r.uniform(1.1, 1.3), tmin * r.uniform(1.4, 3.0)          # the scripted "minimum" is not between the roots
+    elif shape == "touching":
+        T1 = T2 = tmin
+    else:
+        T1 = T2 = None
+    if shape == "no-root":
+        c2, c1, c0 = k, -2 * k * tmin, k * tmin * tmin + k * r.uniform(0.0, 1.0)
+    elif shape == "never-positive":
+        c2, c1, c0 = 0.0, 0.0, -k
+    else:
+        c2, c1, c0 = k, -k * (T1 + T2), k * T1 * T2
+    return f"{branch}/{shape}", (Tn, Tplus, Tminus, tmin, c0, c1, c2)
